@@ -130,7 +130,8 @@ def tree_spec(tier):
     return files, dirs
 
 
-DECOY_FILES = {("secret.txt",): 40, ("secret.bin",): 1500, ("a",): 17, ("sub", "a",): 16}
+DECOY_FILES = {("secret.txt",): 40, ("secret.bin",): 1500, ("a",): 17, ("sub", "a"): 16}
+DECOY_TEXT = {("secret.txt",): b"TOP SECRET - outside the served root :-(\n"}
 
 
 def build(top, files, dirs, tag):
@@ -140,7 +141,7 @@ def build(top, files, dirs, tag):
     for rel, size in files.items():
         os.makedirs(os.path.join(top, *rel[:-1]), exist_ok=True)
         with open(os.path.join(top, *rel), "wb") as f:
-            f.write(content((tag,) + rel, size))
+            f.write(DECOY_TEXT[rel] if tag == "decoy" and rel in DECOY_TEXT else content((tag,) + rel, size))
 
 
 _hash_cache = {}  # path -> ((ino, size, mtime_ns, ctime_ns), sha256)
@@ -601,6 +602,21 @@ def exhaustive_cases(tier, nchain):
                         yield {"k": "ex", "w": w, "m": m, "p": p}
 
 
+def canonical_cases():
+    """One fixed, minimal witness scenario per mechanism seen on the reference tree; run first by shard 0 so
+    that each run re-observes (or confirms as repaired) every listed finding with the same witness."""
+    return [
+        {"k": "dir", "w": 0, "m": GET, "p": ["", "@OUT", "secret.txt"]},  # stat + read outside, answered 2.05
+        {"k": "dir", "w": 0, "m": GET, "p": ["", ""]},  # lists the file system root
+        {"k": "dir", "w": 0, "m": GET, "p": ["", "@OUT", ""]},  # lists the decoy directory
+        {"k": "dir", "w": 1, "m": PUT, "p": ["", "@OUT", "planted.txt"]},  # creates a file outside
+        {"k": "dir", "w": 1, "m": PUT, "p": ["", "@OUT", "secret.txt"]},  # replaces a file outside
+        {"k": "dir", "w": 1, "m": DELETE, "p": ["", "@OUT", "secret.txt"]},  # deletes a file outside
+        {"k": "dir", "w": 0, "m": PUT, "p": ["", "@OUT", "planted.txt"]},  # write disabled: must be refused
+        {"k": "dir", "w": 0, "m": DELETE, "p": ["", "@OUT", "secret.txt"]},
+    ]
+
+
 def directed_cases():
     prefixes = [[""], ["", ""], ["", "", ""], [], ["sub"], ["."], [".."], ["sub", ".."]]
     out_suffixes = [["secret.txt"], ["secret.bin"], [""], [], ["a"], ["sub", "a"], ["sub", ""], ["nonexistent"], ["new.txt"], ["secret.txt", ""], ["..", "outside", "secret.txt"], ["x\0y"], ["@LONG300"], ["."], ["secret.txt", "x"]]
@@ -878,9 +894,9 @@ async def block_fetch(w, case, write, path, plan, label="tree"):
     rep = w.rep
     with fsguard.paused():
         try:
-            with open(os.path.join(w.root, *path), "rb") as f:
+            with open(os.path.join(w.root, "/".join(path)), "rb") as f:
                 want = f.read()
-        except OSError:
+        except (OSError, ValueError):
             rep.count("block_fetch_unreadable_by_harness")
             return
     got = bytearray()
@@ -979,6 +995,8 @@ async def run_case(w, case):
 
 def shard_cases(w, shard):
     idx, of = shard["index"], shard["of"]
+    if idx == 0:
+        yield from canonical_cases()
     i = 0
     for c in itertools.chain(directed_cases(), block_cases(w.files), exhaustive_cases(w.tier, len(w.secret_chain))):
         if i % of == idx:
